@@ -94,6 +94,13 @@ inductive Res
   | error
   deriving Repr, DecidableEq
 
+/-- number of bytes a `write_once` result reports -/
+def Res.count : Res → Nat
+  | .ok n => n
+  | _ => 0
+
+def sumCounts (rs : List Res) : Nat := (rs.map Res.count).sum
+
 /-- ASSUMED kernel behaviour of `sendmsg(iov, SCM_RIGHTS fds)` on a connected Unix stream socket -/
 def kernel (o : Offer) (w : Wire) : Ev → Wire × Res
   | .accept k =>
@@ -177,9 +184,17 @@ inductive WEv
   | io (ev : Ev)
   deriving Repr, DecidableEq
 
+/-- the error `write` hands back: `Error::TimedOut` (from `calc_timeout_left`), the EAGAIN of a
+    `write_once`, any other error of a `write_once` -/
+inductive WErr
+  | timedOut
+  | wouldBlock
+  | other
+  deriving Repr, DecidableEq
+
 inductive WriteRes
   | done (serial : Nat)          -- `Ok(serial)`, the context was dropped
-  | err (wouldBlock : Bool)      -- `Err((self, e))`: the context comes back with its state
+  | err (e : WErr)               -- `Err((self, e))`: the context comes back with its state
   | running                      -- the event list ended while the loop was still going
   | panic                        -- slice panic or `Drop` panic
   deriving Repr, DecidableEq
@@ -189,7 +204,7 @@ inductive WriteRes
     number of `write_once` calls made. -/
 def write (m : Msg) (st : State) (w : Wire) : List WEv → WriteRes × State × Wire × Nat
   | [] => (.running, st, w, 0)
-  | .timeUp :: _ => (.err false, st, w, 0)
+  | .timeUp :: _ => (.err .timedOut, st, w, 0)
   | .io ev :: rest =>
     match writeOnce m st w ev with
     | none => (.panic, st, w, 1)
@@ -199,8 +214,8 @@ def write (m : Msg) (st : State) (w : Wire) : List WEv → WriteRes × State × 
       else
         let (r, st'', w'', n) := write m st' w' rest
         (r, st'', w'', n + 1)
-    | some (st', w', .wouldBlock) => (.err true, st', w', 1)
-    | some (st', w', .error) => (.err false, st', w', 1)
+    | some (st', w', .wouldBlock) => (.err .wouldBlock, st', w', 1)
+    | some (st', w', .error) => (.err .other, st', w', 1)
 
 /-! ### `send_message` -/
 
@@ -223,5 +238,8 @@ def sendMessage (c : Serial.Conn) (hm : Header.Msg) (fds : List Nat) (preset : O
 
 /-- `SendMessageContext::serial` -/
 def Ctx.serial (c : Ctx) : Nat := c.st.serial
+
+/-- the context `send_message` creates for an already marshalled header -/
+def Ctx.start (m : Msg) (serial : Nat) : Ctx := ⟨m, ⟨0, serial⟩⟩
 
 end Rustbus.Send
